@@ -21,7 +21,7 @@ def pack(bits):
     return out or [0]
 
 
-def sample(kind, msg, odd=False, impolite=False):
+def sample(kind, msg, odd=False, impolite=False, little=False):
     """impolite: the caller first encodes the message once, damages the returned word in place (channel simulation),
     extracts from the damaged word, damages what it extracted - and only then makes the calls that are recorded"""
     from bitarray import bitarray
@@ -30,6 +30,8 @@ def sample(kind, msg, odd=False, impolite=False):
     from okdmr.dmrlib.etsi.fec.vbptc_128_72 import VBPTC12873
     from okdmr.dmrlib.etsi.fec.vbptc_32_11 import VBPTC3211
     from okdmr.dmrlib.etsi.fec.vbptc_68_28 import VBPTC6828
+    if little:
+        msg = bitarray(msg.tolist(), endian="little")       # the same bits kept in a little-endian bitarray
     if impolite:
         if kind == "128_72":
             w0 = VBPTC12873.encode(msg.copy())
@@ -45,14 +47,14 @@ def sample(kind, msg, odd=False, impolite=False):
         cw = VBPTC12873.encode(msg.copy())
         dec = VBPTC12873.deinterleave_data_bits(cw, include_cs5=False)
         csx = VBPTC12873.deinterleave_cs5_bits(cw)
-        cscalc = FiveBitChecksum.calculate(msg.tobytes())
+        cscalc = FiveBitChecksum.calculate(bitarray(msg.tolist(), endian="big").tobytes())
         cw2 = VBPTC12873.encode(VBPTC12873.deinterleave_data_bits(cw, include_cs5=True))
         cw3 = VBPTC12873.encode(VBPTC12873.deinterleave_all_bits(cw))
     elif kind == "68_28":
         cw = VBPTC6828.encode(msg.copy())
         dec = VBPTC6828.deinterleave_data_bits(cw, include_crc8=False)
         csx = VBPTC6828.deinterleave_crc8_bits(cw)
-        cscalc = CRC8.calculate(msg.copy())
+        cscalc = CRC8.calculate(bitarray(msg.tolist(), endian="big"))
         cw2 = VBPTC6828.encode(VBPTC6828.deinterleave_data_bits(cw, include_crc8=True))
         cw3 = VBPTC6828.encode(VBPTC6828.deinterleave_all_bits(cw))
     else:
@@ -106,8 +108,10 @@ def run(ctx):
         samples.append(sample("68_28", u, impolite=i % 2 == 0))
     n = 400 if ctx.quick else 6000
     for _ in range(n):
-        samples.append(sample("128_72", bitarray([rng.getrandbits(1) for _ in range(72)]), impolite=bool(rng.getrandbits(1))))
-        samples.append(sample("68_28", bitarray([rng.getrandbits(1) for _ in range(28)]), impolite=bool(rng.getrandbits(1))))
+        samples.append(sample("128_72", bitarray([rng.getrandbits(1) for _ in range(72)]), impolite=bool(rng.getrandbits(1)), little=len(samples) % 4 == 1))
+        samples.append(sample("68_28", bitarray([rng.getrandbits(1) for _ in range(28)]), impolite=bool(rng.getrandbits(1)), little=len(samples) % 3 == 0))
+        if len(samples) % 7 == 0:
+            samples.append(sample("32_11", bitarray([rng.getrandbits(1) for _ in range(11)]), odd=bool(rng.getrandbits(1)), little=True))
     for s in samples:
         ctx.count(core.digest([s["kind"], s["odd"], s["msg"]]))
     data = {"h16": learn_hcols(Hamming16114, 16, 11), "h17": learn_hcols(Hamming17123, 17, 12), "samples": samples}
